@@ -215,12 +215,10 @@ func (d *floatDecoder) Decode(ctx *RuntimeContext, cursor, depth int64, p unsafe
 
 func (d *floatDecoder) DecodePath(ctx *RuntimeContext, cursor, depth int64) ([][]byte, int64, error) {
 	buf := ctx.Buf
-	bytes, c, err := d.decodeByte(buf, cursor)
+	// a selector is still to be applied and a number has no members or elements: nothing is selected
+	_, c, err := d.decodeByte(buf, cursor)
 	if err != nil {
 		return nil, 0, err
 	}
-	if bytes == nil {
-		return [][]byte{nullbytes}, c, nil
-	}
-	return [][]byte{bytes}, c, nil
+	return nil, c, nil
 }
